@@ -406,7 +406,11 @@ def run_cbmc(u, inst, extra=(), trace=True):
         res['status'] = 'oom' if 'bad_alloc' in txt or 'memory' in txt.lower() else 'error'
         if not res['messages']: res['messages'] = [raw[-1500:], err[-1500:]]
         return res
-    res['props'] = props
+    # keep only what the judge needs (a unit can have 30k properties and a tier a thousand queries)
+    res['nprops'] = len(props)
+    res['props'] = [p for p in props if p.get('status') != 'SUCCESS']
+    for p in res['props']:
+        if p.get('status') != 'FAILURE': p.pop('trace', None)
     res['status'] = 'done'
     return res
 
